@@ -32,7 +32,9 @@ def contents(rng, fid, shape, dch, multiline=False):
     if multiline:
         for e in ents:
             r = rng.random()
-            if r < 0.25:
+            if r < 0.08:
+                e[2] = e[2] + "\n   \n  after blank%d" % fid       # an interior line of blanks only is part of the value
+            elif r < 0.25:
                 e[2] = e[2] + "\n   cont%d" % fid + ("\n\tthird line" if rng.chance(0.3) else "")
             elif r < 0.35:
                 e[2] = '"quoted %s"' % e[2]
